@@ -120,7 +120,10 @@ func (c *allOfConstraintCompiler) extendWith(node schema.Node, name string) {
 		fromAdditionalProperties := fromAdditionalProperties.(*constraint.AdditionalProperties)                                          //nolint:errcheck // We're sure about this type.
 		if toAdditionalProperties := toObject.Constraint(constraint.AdditionalPropertiesConstraintType); toAdditionalProperties != nil { //nolint:lll
 			toAdditionalProperties := toAdditionalProperties.(*constraint.AdditionalProperties) //nolint:errcheck // We're sure about this type.
-			if !fromAdditionalProperties.IsEqual(*toAdditionalProperties) {
+			// IsEqual doesn't look at the mode: true, false and "any" have neither
+			// a schema type nor a type name.
+			if fromAdditionalProperties.Mode() != toAdditionalProperties.Mode() ||
+				!fromAdditionalProperties.IsEqual(*toAdditionalProperties) {
 				panic(errors.ErrConflictAdditionalProperties)
 			}
 		} else {
